@@ -44,7 +44,7 @@ func (bg *BondgoCheck) Create_Connecting_Processor(rsize int, procid int) (*proc
 	myarch.L = uint8(Needed_bits(preq.Ramsize))
 	myarch.N = uint8(preq.Inputs)
 	myarch.M = uint8(preq.Outputs)
-	myarch.O = uint8(Needed_bits(preq.Romsize))
+	myarch.O = uint8(Needed_bits(preq.Romsize + 1))
 	myarch.Shared_constraints = strings.Join(preq.SharedObjects, ",")
 
 	prog := bg.Write_assembly(procid)
